@@ -392,6 +392,23 @@ func checkC16(c *Ctx) {
 	// (proofpos): all non-nested subsets of node positions of every forest n<=Npp. For n<=6 all
 	// subsets of all nodes; beyond, subsets of up to PPmax nodes drawn from the leaves row and
 	// every node, non-nested.
+	// large target lists: exactly 256 and 65536 groups (a sibling pair, a lone leaf and lone even
+	// leaves) move up from row 0 - per-row counters of 8 or 16 bits wrap here
+	for _, k := range []uint{9, 17} {
+		n := uint64(1)<<k + 4
+		ts := []uint64{0, 1, 2}
+		for x := uint64(4); x < uint64(1)<<k; x += 2 {
+			ts = append(ts, x)
+		}
+		rows := ref.RowsFor(n)
+		for _, TR := range []uint8{rows, 63} {
+			tt := make([]uint64, len(ts))
+			for i, t := range ts {
+				tt[i], _ = ref.Translate(t, rows, TR)
+			}
+			add(geomCase{Fn: "proofpos", A: []uint64{n, uint64(TR)}, T: tt})
+		}
+	}
 	for n := uint64(1); n <= uint64(Npp); n++ {
 		R := ref.RowsFor(n)
 		type nd struct {
